@@ -2,7 +2,8 @@
 from . import core
 
 SHORTS = ["a", "rhel", "my-prod", "a-1", "x-y-z", "fast", "ga"]       # short names that are type names, too
-VERSIONS = ["1", "7.1", "10.0.3", "rawhide", "fast", "eus", "20150522", "Rawhide", "ELN.1", "rawhide ", " pre", "r%sc%%d%"]   # free-form: blanks at either end are part of the text
+VERSIONS = ["1", "7.1", "10.0.3", "rawhide", "fast", "eus", "20150522", "Rawhide", "ELN.1", "rawhide ", " pre", "r%sc%%d%",
+            "07", "7.00", "1.02.3"]          # numeric versions are text: leading zeros stay   # free-form: blanks at either end are part of the text
 REPS = [{"l": "a", "U": "A", "d": "1", "-": "-", ".": ".", "@": "@", "o": "_"},
         # "other" is everything else: a line feed (which '.' and '$' of a pattern treat specially) ...
         {"l": "z", "U": "Q", "d": "0", "-": "-", ".": ".", "@": "@", "o": "\n"},
@@ -116,7 +117,7 @@ def run(ctx):
         # base products: a sample of the product (thorough enumerates all of it)
         import random
         rng = random.Random(ctx.seed)
-        bps = [(s, v, t) for s in SHORTS[:4] + ["ga"] for v in VERSIONS[:4] + [x for x in VERSIONS if "%" in x] for t in C.RELEASE_TYPES]
+        bps = [(s, v, t) for s in SHORTS[:4] + ["ga"] for v in VERSIONS[:4] + [x for x in VERSIONS if "%" in x or x[0] == "0"] for t in C.RELEASE_TYPES]
         extra = []
         for c in ids:
             for b in rng.sample(bps, 3):
